@@ -111,13 +111,6 @@ func (cb *CircuitBreaker) Execute(fn func() error) error {
 		return err
 	}
 
-	// Increment request count for half-open state
-	cb.mutex.Lock()
-	if cb.state == StateHalfOpen {
-		cb.requestCount++
-	}
-	cb.mutex.Unlock()
-
 	defer func() {
 		if r := recover(); r != nil {
 			cb.afterRequest(false)
@@ -161,40 +154,42 @@ func (cb *CircuitBreaker) beforeRequest() error {
 		return nil
 	}
 
-	// For Open state, check if we can transition to HalfOpen
-	if state == StateOpen {
-		canRetry := cb.nextAttempt.Before(now)
-		cb.mutex.RUnlock()
-
-		if canRetry {
-			cb.mutex.Lock()
-			// Double-check state hasn't changed
-			if cb.state == StateOpen && cb.nextAttempt.Before(now) {
-				cb.setState(StateHalfOpen)
-				cb.requestCount = 0
-				cb.successCount = 0
-			}
-			notify := cb.takeNotifications()
-			cb.mutex.Unlock()
-			runNotifications(notify)
-			return nil
-		}
-		return ErrCircuitBreakerOpen
-	}
-
-	// HalfOpen state: check request limit
-	if state == StateHalfOpen {
-		atLimit := cb.requestCount >= cb.maxRequests
-		cb.mutex.RUnlock()
-
-		if atLimit {
-			return ErrTooManyRequests
-		}
-		return nil
-	}
-
+	// Open and half-open: the admission decision and the trial counter must
+	// change together, under the write lock. Checking the limit under the read
+	// lock and counting the trial later lets concurrent requests all pass the
+	// check before any of them is counted.
 	cb.mutex.RUnlock()
-	return ErrCircuitBreakerOpen
+	return cb.admitSlow(now)
+}
+
+// admitSlow decides admission for a breaker that was seen open or half-open.
+func (cb *CircuitBreaker) admitSlow(now time.Time) error {
+	cb.mutex.Lock()
+
+	if cb.state == StateOpen && cb.nextAttempt.Before(now) {
+		cb.setState(StateHalfOpen)
+		cb.requestCount = 0
+		cb.successCount = 0
+	}
+
+	var err error
+	switch cb.state {
+	case StateClosed:
+		// closed meanwhile by a successful trial: admit
+	case StateHalfOpen:
+		if cb.requestCount >= cb.maxRequests {
+			err = ErrTooManyRequests
+		} else {
+			cb.requestCount++ // this request is a trial
+		}
+	default:
+		err = ErrCircuitBreakerOpen
+	}
+
+	notify := cb.takeNotifications()
+	cb.mutex.Unlock()
+	runNotifications(notify)
+	return err
 }
 
 // afterRequest updates the circuit breaker state after a request
